@@ -106,12 +106,12 @@ func chainTo(b *simnode.Block) []*simnode.Block {
 // output of a pending transaction paying a wallet address.
 func (w *World) ownedOutpoint(op wire.OutPoint, l *Ledger) bool {
 	if c := l.Coins[op]; c != nil {
-		return c.Owner != nil
+		return w.live(c.Owner)
 	}
 	if w.Pend != nil {
 		if tx := w.Pend.Txs[op.Hash]; tx != nil && int(op.Index) < len(tx.TxOut) {
 			_, h, _, _ := Classify(tx.TxOut[op.Index].PkScript)
-			return h != nil && w.owner[fmt.Sprintf("%x", h)] != nil
+			return h != nil && w.live(w.owner[fmt.Sprintf("%x", h)])
 		}
 	}
 	return false
@@ -124,11 +124,28 @@ func (w *World) relevantP(tx *wire.MsgTx, l *Ledger) bool {
 		}
 	}
 	for _, o := range tx.TxOut {
-		if _, h, _, _ := Classify(o.PkScript); h != nil && w.owner[fmt.Sprintf("%x", h)] != nil {
+		if _, h, _, _ := Classify(o.PkScript); h != nil && w.live(w.owner[fmt.Sprintf("%x", h)]) {
 			return true
 		}
 	}
 	return false
+}
+
+// live reports whether an address belongs to a wallet the follower currently serves
+// (present and ready: importing or removing wallets are skipped by the relevance filter).
+func (w *World) live(a *Addr) bool {
+	if a == nil {
+		return false
+	}
+	if w.statusCache == nil {
+		w.statusCache = map[string]string{}
+	}
+	st, ok := w.statusCache[a.Wallet]
+	if !ok {
+		st = w.TaskStatus(a.Wallet)
+		w.statusCache[a.Wallet] = st
+	}
+	return st == "ready"
 }
 
 // refDeliverTx updates the reference when a relayed transaction is delivered.
@@ -161,6 +178,12 @@ func (w *World) refDeliverBlock(b *wire.MsgBlock) {
 	nb := w.N.All[b.BlockHash()]
 	if nb == nil || int(nb.Height) >= len(w.N.Best) || w.N.Best[nb.Height].Hash != nb.Hash {
 		return // stale tip: the wallet cannot apply it
+	}
+	if len(p.Txs) == 0 && nb.Parent != nil && nb.Parent.Hash == p.Tip.Hash {
+		// plain extension with nothing pending: coinbases never enter the pending set and
+		// there is nothing to confirm or conflict with
+		p.Tip = nb
+		return
 	}
 	oldChain, newChain := chainTo(p.Tip), chainTo(nb)
 	f := 0
@@ -205,7 +228,7 @@ func (w *World) refDeliverBlock(b *wire.MsgBlock) {
 				for _, in := range tx.TxIn {
 					c := led.Coins[in.PreviousOutPoint]
 					for _, s := range p.Spenders(in.PreviousOutPoint) {
-						if c == nil || c.Owner == nil {
+						if c == nil || !w.live(c.Owner) {
 							w.markInvisible(s)
 						}
 						p.removeWithDescendants(s)
@@ -283,7 +306,7 @@ func (w *World) CheckPending() []string {
 		}
 	}
 	// spent-by-unconfirmed flag of every wallet coin
-	for _, role := range w.Roles() {
+	for _, role := range w.ReadyRoles() {
 		o := w.ObserveWallet(role)
 		if o.Err != "" {
 			d = append(d, role+": "+o.Err)
@@ -322,6 +345,11 @@ func (w *World) markInvisible(h wire.Hash) {
 // ---- relay events ----
 
 func (w *World) relayedSpends(op wire.OutPoint) bool {
+	// also transactions that fell back into the pending set when their block was rolled
+	// back: templates must not double-spend them by accident (patterns D/cc/ci do it on purpose)
+	if w.Pend != nil && len(w.Pend.Spenders(op)) > 0 {
+		return true
+	}
 	for _, tx := range w.Relayed {
 		for _, in := range tx.TxIn {
 			if in.PreviousOutPoint == op {
@@ -420,7 +448,7 @@ func (w *World) RelayContent(t string, l *Ledger) (*wire.MsgTx, bool) {
 			}
 		}
 	case "dup":
-		if len(w.Relayed) == 0 || w.RelayedKind[len(w.Relayed)-1] == "dup" {
+		if len(w.Relayed) == 0 || w.RelayedKind[len(w.Relayed)-1] == "dup" || w.RelayedKind[len(w.Relayed)-1] == "rb" {
 			return nil, false
 		}
 		return w.Relayed[len(w.Relayed)-1], true
@@ -596,4 +624,16 @@ func (w *World) PendingKnownTags(diffs []string) []string {
 		}
 	}
 	return []string{"pending-conflict-on-foreign-input"}
+}
+
+// RelayCount counts the transactions relayed by relay events (not those that fell back
+// into the node's pool through a reorganisation).
+func (w *World) RelayCount() int {
+	n := 0
+	for _, k := range w.RelayedKind {
+		if k != "rb" {
+			n++
+		}
+	}
+	return n
 }
